@@ -46,3 +46,18 @@ Theorem C04_parse_result :
       extend tail (parse pf md lower ro specs root st0 pre) (add_text (set_ph sh PTail) tail).
 Proof. exact terminator_parse. Qed.
 Print Assumptions C04_parse_result.
+
+(* "Never sets an option, selects a command, or triggers unknown-option handling": after the whole
+   argument vector the option store (values and called marks), the selected command, the levels
+   above it and the unknown-option list are exactly those reached just before the `--` - for every
+   tail, in every mode, unknown-mode and with or without require-order - and remaining is the text
+   so far followed by the tail, verbatim and in order (the `--` itself is dropped). *)
+Theorem C04_nothing_set_after_terminator :
+  forall pf md lower specs ro root st0 pre tail st sh,
+    run pf md lower ro specs (init root st0) pre = Ok st ->
+    at_head pf md lower specs st DD sh ->
+    exists fin, walk pf md lower ro specs root st0 (pre ++ DD :: tail) = Ok fin /\
+      store fin = store sh /\ cur fin = cur sh /\ up fin = up sh /\ unk fin = unk sh /\
+      text fin = text sh ++ tail.
+Proof. exact terminator_store_frozen. Qed.
+Print Assumptions C04_nothing_set_after_terminator.
